@@ -505,6 +505,7 @@ type builderRow struct {
 	Required  []string `json:"required,omitempty"`  // substrings that must occur in some line (independent oracle, hand-written)
 	Forbidden []string `json:"forbidden,omitempty"` // substrings that must not occur
 	Lines     []string `json:"lines"`               // reviewed fingerprint
+	Params    []string `json:"params,omitempty"`    // parameter (then captured variable) names of the reviewed function, by position
 }
 
 func loadBuilders(verif string) (map[string]*builderRow, error) {
@@ -522,12 +523,69 @@ func loadBuilders(verif string) (map[string]*builderRow, error) {
 }
 
 // e6Check compares a fingerprint with its reviewed row.
-func e6Check(c *Ctx, rule, name string, pos string, got []string, rows map[string]*builderRow) {
+// e6Names: the names a fingerprint can mention with a `$`: parameters, then captured variables, by position
+func e6Names(fn *ssa.Function) []string {
+	var out []string
+	for _, p := range fn.Params {
+		out = append(out, p.Name())
+	}
+	for _, v := range fn.FreeVars {
+		out = append(out, v.Name())
+	}
+	return out
+}
+
+// e6Positional: `$name` → `$#i` (i the position of name): renaming a parameter does not change a fingerprint,
+// exchanging two parameters does
+func e6Positional(s string, names []string) string {
+	if len(names) == 0 || !strings.Contains(s, "$") {
+		return s
+	}
+	var b strings.Builder
+	for i := 0; i < len(s); {
+		if s[i] != '$' {
+			b.WriteByte(s[i])
+			i++
+			continue
+		}
+		j := i + 1
+		for j < len(s) && (s[j] == '_' || s[j] >= '0' && s[j] <= '9' || s[j] >= 'a' && s[j] <= 'z' || s[j] >= 'A' && s[j] <= 'Z') {
+			j++
+		}
+		id := s[i+1 : j]
+		rep := ""
+		for k, n := range names {
+			if n == id && n != "" && n != "_" {
+				rep = fmt.Sprintf("$#%d", k)
+				break
+			}
+		}
+		if rep == "" {
+			rep = s[i:j]
+		}
+		b.WriteString(rep)
+		i = j
+	}
+	return b.String()
+}
+
+func e6Check(c *Ctx, rule, name string, pos string, got []string, rows map[string]*builderRow, names []string) {
 	r := c.R
 	row := rows[name]
 	if row == nil {
 		r.Undecided(rule, name+": no reviewed row in spec/builders.json", pos, "extracted:\n      "+strings.Join(got, "\n      "))
 		return
+	}
+	if len(row.Params) > 0 {
+		mp := func(ls []string, ns []string) []string {
+			out := make([]string, len(ls))
+			for i, l := range ls {
+				out[i] = e6Positional(l, ns)
+			}
+			return out
+		}
+		got = mp(got, names)
+		row = &builderRow{Source: row.Source, Required: mp(row.Required, row.Params), Forbidden: mp(row.Forbidden, row.Params), Lines: mp(row.Lines, row.Params)}
 	}
 	all := strings.Join(got, "\n")
 	for _, rq := range row.Required {
